@@ -85,6 +85,17 @@ def c12_1(ctx):
     g = ctx.cfg(f)
     rr = [r for r in returns(f) if r.value is not None]
     if len(rr) != 1 or not isinstance(rr[0].value, ast.Name):
+        # the adjustment applied in a return expression: every test of the offset has then seen the unadjusted value
+        late_adj = [r for r in rr if isinstance(r.value, ast.BinOp) and isinstance(r.value.op, ast.Sub) and isinstance(r.value.left, ast.Name)
+                    and 'instruction_size' in unparse(r.value.right)]
+        if late_adj:
+            rv0 = late_adj[0].value.left.id
+            tests = [n for n in g.nodes if n.kind == 'test' and n.expr is not None and rv0 in unparse(n.expr) and ('min' in unparse(n.expr) or 'max' in unparse(n.expr))]
+            if tests and all(g.reaches(t.id, g.node_of(late_adj[0])) for t in tests):
+                ctx.refute('relative:bounds-after-adjustment', f.site(late_adj[0]), 'the min/max bounds apply to the adjusted offset',
+                           f'the from-end adjustment is made in `{unparse(late_adj[0])}`, after the bounds were tested on the unadjusted offset: '
+                           + '; '.join(unparse(t.expr) for t in tests))
+                return
         raise AnalysisError('RelativeAddress.get_value: single `return <offset>` expected')
     rv = rr[0].value.id
     defs = [n for n in walk_no_nested(f.node) if isinstance(n, ast.Assign) and unparse(n.targets[0]) == rv]
@@ -210,6 +221,28 @@ def c12_2(ctx):
         size = unparse(b.get('value_size'))
         ok = (d == 'self.bytecode_value_dict' and size == 'self.bytecode_size') or (d == 'self.argument_value_dict' and size == 'self.argument_size')
         ctx.check(ok, f'prov:numeric_enumeration:{d}', ne.site(c), 'the code part uses the bytecode dictionary, the argument part the argument dictionary', f'{d} with size {size}')
+
+
+def c12_valid_address_sites(ctx):
+    ctx.rule('C12.7', 'operand types that can be flagged valid_address build their argument in the one place that honours the flag', 1)
+    ne = ctx.repo.cls(T + 'numeric_expression.NumericExpressionOperand')
+    family = [ne] + ne.all_subclasses()
+    n = 0
+    for c in family:
+        for name, f in c.methods.items():
+            for call in ast.walk(f.node):
+                if isinstance(call, ast.Call) and unparse(call.func) == 'ExpressionByteCodePart':
+                    n += 1
+                    ok = c is ne and name == '_parse_bytecode_parts'
+                    if ok:
+                        cl = facts_at(ctx, f, call, resolver(ctx, f, inline=False))
+                        ok = any(len(x) == 1 and next(iter(x))[0] == 'truthy' and 'enforce_argument_valid_address' in next(iter(x))[1] and next(iter(x))[-1] is False for x in cl)
+                    ctx.check(ok, f'prov:plain-argument-part:{c.name}.{name}', f.site(call),
+                              'a numeric-expression operand (plain, indirect, deferred, address, ...) builds an unchecked argument part only in '
+                              'NumericExpressionOperand._parse_bytecode_parts, in the branch where valid_address is not set',
+                              f'{c.name}.{name} builds ExpressionByteCodePart itself: an operand flagged valid_address is no longer held to the GLOBAL zone there')
+    if n < 1:
+        ctx.err('prov:plain-argument-part', '-', 'at least one plain argument part construction in the family', str(n))
 
 
 def c12_enum_keys(ctx):
@@ -352,7 +385,7 @@ def c12_macro_operands(ctx):
               'the macro operands\' parts are never evaluated: `sh2 7` is accepted although the operand is restricted to {1, 2}')
 
 
-RULES = [c12_1, c12_2, c12_3, c12_4, c12_macro_steps, c12_state, c12_paths, c12_macro_operands, c12_enum_keys]
+RULES = [c12_1, c12_2, c12_3, c12_4, c12_macro_steps, c12_state, c12_paths, c12_macro_operands, c12_enum_keys, c12_valid_address_sites]
 
 _P = 'assembler/bytecode/parts.py'
 _R = 'assembler/model/operand/types/relative_address.py'
